@@ -24,6 +24,7 @@ import (
 	mavldb "github.com/33cn/chain33/system/store/mavl/db"
 	"github.com/33cn/chain33/types"
 	"verif/checks/c01/mvx"
+	"verif/vrt"
 	"verif/vx"
 )
 
@@ -369,12 +370,22 @@ func main() {
 		var c struct {
 			Harness string
 			Hist    []int
+			Choices []int
 		}
 		json.Unmarshal(raw, &c)
 		f := "unknown harness " + c.Harness
 		for _, cfg := range cfgs {
 			if cfg.Name == c.Harness {
 				f = mk(cfg).seq(r).ReplayHist(c.Hist)
+			}
+			for _, q := range concScheds(r, cfg, true) {
+				if q.Name == c.Harness {
+					var res *vrt.Result
+					f, res = q.ReplaySched(c.Choices)
+					for _, l := range res.Trace {
+						fmt.Println("  ", l)
+					}
+				}
 			}
 		}
 		if f != "" {
